@@ -6,10 +6,14 @@
 //!     M:i:j        merge treaps i and j                 A:i:k        split_at
 //!     B:i:c        split_by (elem < c)                  I:i:k:v:p    insert_at
 //!     R:i:k        remove_at                            U:i:a:c / U:i:s:c   root_mut().modify(add c / set c)
+//!     V:i:k:j:k2:p   move: `let it = treaps[i].remove_at(k); treaps[j].insert_at(k2, it)` — the item OBJECT that
+//!                    remove_at returned is inserted (i == j allowed; skipped unless both are live; priority p as for I)
 //!     f:i l:i C:i S:i G:i    first, last, collect, size, root aggregate
 //!   Treaps live in a vector; merge/split remove their operands and append the results (an operation naming a
 //!   missing treap is skipped and prints `x`).  The `priority` of every node created with a numeric `p` is
 //!   overwritten through the public field, so that the Coq model sees the same priorities.
+//!   remove_at (R and V) prints the COMPLETE returned item, `r:` + the six numbers that the raw shapes print for a node
+//!   item (element, aggregate, size, pending tag, extra fields), read before anything else touches the item.
 //!   Output: one token per op, ` | `, the raw shape of every live treap read through the public fields
 //!   left/right/priority/item, ` | `, collect() of every live treap.
 //! `x <family> <n>`           implementation-level search for C16 (native priorities): sorted appends,
@@ -246,7 +250,11 @@ impl HItem for ItemHash {
 }
 
 fn node<I: HItem>(v: i64, pr: &str) -> Treap<I> {
-    let mut t = Treap::from_item(I::mk(v));
+    node_of(I::mk(v), pr)
+}
+
+fn node_of<I: HItem>(item: I, pr: &str) -> Treap<I> {
+    let mut t = Treap::from_item(item);
     if pr != "n" {
         t.root.as_mut().unwrap().priority = p::<u32>(pr);
     }
@@ -340,7 +348,24 @@ fn history<I: HItem>(toks: &[&str]) -> String {
                     let k: usize = p(f[2]);
                     let t = &mut ts[i];
                     match vh::guarded(|| t.remove_at(k)) {
-                        Some(it) => format!("r:{}", it.elem()),
+                        Some(it) => format!("r:{}", it.dump().replace(' ', ",")),
+                        None => "P".into(),
+                    }
+                }
+            }
+            "V" => {
+                let (i, j) = (idx(1), idx(3));
+                if i >= ts.len() || j >= ts.len() {
+                    "x".into()
+                } else {
+                    let k: usize = p(f[2]);
+                    let t = &mut ts[i];
+                    match vh::guarded(|| t.remove_at(k)) {
+                        Some(it) => {
+                            let r = format!("r:{}", it.dump().replace(' ', ","));
+                            insert_item_with_priority(&mut ts[j], p::<usize>(f[4]), it, f[5]);
+                            r
+                        }
                         None => "P".into(),
                     }
                 }
@@ -410,13 +435,18 @@ fn history<I: HItem>(toks: &[&str]) -> String {
 /// generator's draws); with an injected priority the body of `insert_at` is replayed through the public API
 /// (split_at, from_item + public priority field, merge, merge).
 fn insert_with_priority<I: HItem>(t: &mut Treap<I>, pos: usize, v: i64, pr: &str) {
+    insert_item_with_priority(t, pos, I::mk(v), pr)
+}
+
+/// the same for an item object that already exists (the one `remove_at` returned): it is handed over as it is
+fn insert_item_with_priority<I: HItem>(t: &mut Treap<I>, pos: usize, item: I, pr: &str) {
     if pr == "n" {
-        t.insert_at(pos, I::mk(v));
+        t.insert_at(pos, item);
         return;
     }
     let whole = std::mem::replace(t, Treap::new());
     let (l, r) = whole.split_at(pos);
-    *t = Treap::merge(Treap::merge(l, node::<I>(v, pr)), r);
+    *t = Treap::merge(Treap::merge(l, node_of(item, pr)), r);
 }
 
 fn height<I>(n: &Option<Box<TreapNode<I>>>) -> usize {
